@@ -596,6 +596,7 @@ func (la *lockAnalysis) Accesses(row GuardRow) ([]guardedAccess, error) {
 // isFreshAlloc: v is a struct allocated in this function (new(T) / &T{}) that has not been published yet —
 // approximated as: the address comes straight from an Alloc instruction.
 func isFreshAlloc(v ssa.Value) bool {
+	v = unwrapLoadFree(v) // the variable may live in a cell because a closure captures it
 	_, ok := v.(*ssa.Alloc)
 	return ok
 }
